@@ -204,17 +204,25 @@ def comp_term(defs):
                                                                        for x in items])) for nm, sq, items in defs])
 
 
-def classify(defs, name, obs, exp_fn):
-    """which known class explains obs != expansion"""
-    kinds = {d[0]: d[1] for d in defs}
-    if not kinds[name]:
-        return K_SET
-    if any(not kinds[x[1]] for d in defs for x in d[2] if x[0] == 'of'):
-        return K_SET
-    exp = exp_fn
+def classify(defs, name, obs, exp):
+    """which known class explains obs != expansion (None: no known class does).  The classes are kept as narrow as their
+    descriptions: `appended` needs a COMPONENTS OF entry that is not the last entry of its list and explains a permutation only;
+    `chain-order` needs a referenced type that itself uses COMPONENTS OF (depth >= 2).  A chain of depth one with trailing
+    COMPONENTS OF is proved right (C09_pass_depth_one), so a difference there is never a known finding.
+    (The class K_SET -- COMPONENTS OF a SET type copied nothing -- was repaired in /repo: SET chains are judged like SEQUENCE chains.)"""
+    d = {x[0]: x for x in defs}
+    reach, todo = [], [name]
+    while todo:
+        n = todo.pop()
+        if n in reach or n not in d:
+            continue
+        reach.append(n)
+        todo += [x[1] for x in d[n][2] if x[0] == 'of']
+    non_trailing = any(x[0] == 'of' and any(y[0] == 'own' for y in d[n][2][i + 1:]) for n in reach for i, x in enumerate(d[n][2]))
+    deep = any(x[0] == 'of' and x[1] in d and any(y[0] == 'of' for y in d[x[1]][2]) for x in d[name][2])
     if sorted(obs) == sorted(exp):
-        return K_APPENDED
-    return K_CHAIN
+        return K_APPENDED if non_trailing else None
+    return K_CHAIN if deep else None
 
 
 def expand_py(defs, name, seen=()):
@@ -316,7 +324,7 @@ def run(ck):
     for j in bad[1]:
         k, nm, obs = idx[j]
         slug = classify(comps[k], nm, obs, expand_py(comps[k], nm))
-        if ck.is_known(slug):
+        if slug and ck.is_known(slug):
             ck.known_hit(slug, {'asn1': comp_asn(k, comps[k]), 'type': nm, 'fields': obs, 'expansion': expand_py(comps[k], nm)})
         else:
             ck.violation('impl-violation', comp_asn(k, comps[k]), type=nm, fields=obs, expansion=expand_py(comps[k], nm),
